@@ -887,4 +887,7 @@ var Client = harness.Define(harness.Opts{
 	Name:  "client",
 	Rule:  "one call of one LogClient method (GetSTH, AddChain, AddPreChain - a quarter of the submissions and get-roots through a one-shard TemporalLogClient -, GetSTHConsistency, GetProofByHash, GetRawEntries, GetEntries, GetEntryAndProof, GetAcceptedRoots) by a client given its key as PublicKeyDER, as PEM PublicKey, as both, or as DER under the PEM of a decoy key (DER has precedence), with 0-2 other clients built before it in the same process from the same two keys, holding a P-256 / RSA-2048 / RSA-3072 log key (or, with AllowVerificationWithNonCompliantKeys, P-384 / P-521 / RSA-1024), against a scripted round tripper serving 1-3 answers (the last repeats); each answer is the truthful one (signed with the pool key over internal/rfc6962 inputs; chains and entries from internal/world) under 0-3 mutations (status 0..1000, body read error, network error, odd headers, Content-Length 0 / short / long / 2^31 / 2^48 / 2^50 / 2^62 / 2^63-1 / invalid modelled as net/http delivers it, redirects, body replaced / truncated / extended, JSON fields dropped / wrongly typed / duplicated / re-cased / with broken base64, root hash or id of 0/31/33 bytes, foreign / decoy-key / flipped / empty signature, DigitallySigned truncated or followed by bytes, algorithm octets relabelled, other hash, timestamp / size / root / extensions changed after signing, signed version or signature type changed, SCT for another certificate / the other entry type, foreign or zero log id, sct_version != 0, undecodable entries, error bodies of 513-1700 octets, get-entries replies of 60-263 entries). A sixth of the submissions hand in a chain whose elements are not one certificate each (a second certificate inside an element, two elements merged, one split, empty elements); the klog -v level is 0, 1, 2 or 5. Runs under virtual time; submissions carry a virtual deadline. Non-trivial: >= 1 mutation",
 	Quick: 8000, Thorough: 20000,
+	// a panic in a goroutine the client starts itself (TemporalLogClient.GetAcceptedRoots) cannot be recovered:
+	// every case is persisted before it runs so that the driver can attribute the abort
+	Crashy: true,
 }, genCase, checkClient)
